@@ -80,13 +80,13 @@ ASSUMPTIONS = [
     "exception type; an exception where the reference estimator is defined and finite is a "
     "violation of '.reference'",
 ]
-MIN_EVALS = {"statistics.definition": 2000, "statistics.twin": 1000, "statistics.poison": 500,
-             "kde_scatter.reference": 150, "kde_scatter.twin": 300, "kde_scatter.poison": 150,
-             "kde_contour.reference": 60, "kde_contour.grid": 60, "kde_contour.twin": 150,
-             "kde_contour.poison": 80,
-             "quantile.fraction": 150, "quantile.twin": 100, "quantile.poison": 50,
-             "downsampled_scatter.twin": 150, "downsampled_scatter.poison": 80,
-             "tsv.definition": 300, "tsv.twin": 150, "tsv.poison": 80}
+MIN_EVALS = {"statistics.definition": 30000, "statistics.twin": 1000, "statistics.poison": 800,
+             "kde_scatter.reference": 1500, "kde_scatter.twin": 2500, "kde_scatter.poison": 2000,
+             "kde_contour.reference": 500, "kde_contour.grid": 500, "kde_contour.twin": 1200,
+             "kde_contour.poison": 1000,
+             "quantile.fraction": 3000, "quantile.twin": 500, "quantile.poison": 400,
+             "downsampled_scatter.twin": 1000, "downsampled_scatter.poison": 800,
+             "tsv.definition": 2500, "tsv.twin": 800, "tsv.poison": 600}
 WATCHDOG_S = {"quick": 400, "thorough": 3000}
 
 M_EMPTY_STATS = "statistics-empty-dataset-nan"
@@ -107,8 +107,9 @@ def _split(kind, total, shards, **extra):
 def plan(tier, seed):
     from vmon.gen import c12_gen as G
     q = tier == "quick"
-    shards = _split("rand", 480 if q else 14000, 16 if q else 64)
-    shards += _split("exh", G.exhaustive_count(EXH_N[tier], EXH_T[tier]), 4 if q else 32,
+    # cost per case on one core: rand ~0.07 s, exh ~0.4 s
+    shards = _split("rand", 1920 if q else 48000, 16 if q else 96)
+    shards += _split("exh", G.exhaustive_count(EXH_N[tier], EXH_T[tier]), 8 if q else 32,
                      max_n=EXH_N[tier])
     return shards
 
@@ -120,6 +121,7 @@ class _S:
     role = "client"
     reference = True
     case_info = None
+    calls = 0
 
 
 def selection(ds):
@@ -420,10 +422,14 @@ def _judge_quantile(ctx, rec):
         except Exception:
             ctx.count("skipped_quantile[independent interpolation rejects the grid]")
             return
+        finding = None
+        if K.predict_quantile_axis_defect(p["x"], p["y"]) == type(rec["exc"]).__name__:
+            finding = K.M_QUANTILE_AXIS_MAX_ZERO
         ctx.ev("quantile.fraction")
         ctx.violation("quantile.fraction", _wit({"q": p["q"], "exc": repr(rec["exc"]),
                                                  "x_axis": K.axis_1d(p["x"], 0),
                                                  "y_axis": K.axis_1d(p["y"], 1)}),
+                      finding=finding,
                       message=f"get_quantile_levels raised {rec['exc']!r} on a finite density "
                               f"over a regular grid")
         return
@@ -611,8 +617,10 @@ def _observe(ctx, ds, role, call, reference):
     del _S.log[i:]
     if not recs:
         raise RuntimeError("the monitored entry point was not reached through its wrapper")
-    if ctx.rng(ctx.case, salt=7).random() < 0.2:
-        Cache.clear_cache()
+    _S.calls += 1
+    if _S.calls % 23 == 0:
+        Cache.clear_cache()          # (costs a gc.collect(): only now and then)
+        ctx.count("cache_cleared")
     return recs[0]
 
 
@@ -702,7 +710,9 @@ def op_stats(ctx, env, methods, features):
 def _kde_common(rng, env, G, big_ok):
     xax, yax = G.gen_axes(rng, env.feats)
     xscale, yscale = G.gen_scales(rng)
-    x, y = env.cols[xax][env.sel], env.cols[yax][env.sel]
+    # (float copies for the generators: features stored as unsigned integers wrap around)
+    x = np.asarray(env.cols[xax][env.sel], dtype=np.float64)
+    y = np.asarray(env.cols[yax][env.sel], dtype=np.float64)
     kde = G.gen_kde_type(rng, x.size)
     return xax, yax, xscale, yscale, x, y, kde
 
@@ -901,6 +911,7 @@ def run_rand(ctx):
         _S.case_info = {"case": idx, "n": n, "features": feats, "shapes": shapes, "format": fmt,
                         "filter": {k: v for k, v in recipe.items() if k != "manual"}}
         env = None
+        _S.calls = 0
         try:
             env = build_env(ctx, cols, feats, recipe, flow, fmt, rng)
             nsel = int(env.sel.sum())
@@ -965,6 +976,7 @@ def run_exh(ctx, spec):
         rng = ctx.rng(idx, salt=2)
         _S.case_info = {"case": idx, "template": name, "n": n, "mask": mask.astype(int).tolist()}
         env = None
+        _S.calls = idx % 23
         try:
             env = build_env(ctx, cols, feats, recipe, 0.04, "dict", rng)
             nsel = int(env.sel.sum())
